@@ -23,8 +23,11 @@ def real_plans(tier):
 
 
 def run(tier):
+    def extra(drv, d):
+        kl, sl, nseq, r = snapcheck.chains_lines(drv, tier)
+        return sl
     return snapcheck.run_snap_property(
-        PROP, tier, "SnapTrace_C05.cfg", plans(tier), real_plans=real_plans(tier), real_cfg="RealTrace_C05.cfg",
+        PROP, tier, "SnapTrace_C05.cfg", plans(tier), extra_lines=extra, real_plans=real_plans(tier), real_cfg="RealTrace_C05.cfg",
         rule="arbitrary vertex sequences from small point pools (repeated vertices, spikes, rings of 0-2 points, up to 3 rings) and valid "
              "polygons, each run with keep-points-and-lines off and on (and reverse toggled); ring structure, orientation by sign of area, "
              "collapse policy and the keep/no-keep relation judged by TLC")
